@@ -122,7 +122,7 @@ def poly_case(draw, tier="quick"):
     n = draw(st.integers(3, 7))
     idx = sorted(draw(st.permutations(range(16)))[:n])
     radii = [draw(st.integers(1, 3)) for _ in range(n)]
-    kind = draw(st.sampled_from(["polygon", "polygon", "triangle", "rectangle", "collection"]))
+    kind = draw(st.sampled_from(["polygon", "polygon", "triangle", "rectangle", "collection", "collection"]))
     return {"kind": kind, "idx": idx, "radii": radii, "off": [draw(C.ints(4)), draw(C.ints(4))], "embed": draw(st.sampled_from([None, None, "3d"])),
             "frame": [draw(C.ints(3)) for _ in range(9)], "rot": draw(st.integers(0, 6)), "rev": draw(st.booleans()), "api": draw(st.sampled_from(["single", "collection"])),
             "scales": [draw(C.scale()) for _ in range(7)], "scaled": draw(st.sampled_from([False, False, True])),
@@ -257,6 +257,39 @@ def run_poly(c):
                 fails.append((f, c))
             elif np.asarray(r1).shape != (2,) or not np.all(np.asarray(r1) == tall[0]):
                 fails.append((mismatch(site0 + ":single-point-vs-collection", np.asarray(r1).tolist()), c))
+            if emb is not None:
+                # ... and against two polygons in different planes: the second one is the image under the cyclic coordinate
+                # permutation (x, y, z) -> (y, z, x); a point P lies in it iff the pre-image of P lies in the first polygon
+                perm = [1, 2, 0, 3]
+                V2 = V[:, perm]
+                o, u, w = emb
+                fo, fu, fw = [[Fraction(int(x)) for x in vec] for vec in (o, u, w)]
+
+                def in_first(P3):
+                    rhs = [P3[i] - fo[i] for i in range(3)]
+                    for i, j in ((0, 1), (0, 2), (1, 2)):
+                        det = fu[i] * fw[j] - fu[j] * fw[i]
+                        if det != 0:
+                            x = (rhs[i] * fw[j] - rhs[j] * fw[i]) / det
+                            y = (fu[i] * rhs[j] - fu[j] * rhs[i]) / det
+                            k = 3 - i - j
+                            if fu[k] * x + fw[k] * y != rhs[k]:
+                                return False
+                            return bool(X.point_in_polygon(base, [x, y]))
+                    return False
+
+                both = PolygonCollection(np.stack([V, V2]))
+                for qi in range(0, len(qs), max(1, len(qs) // 12)):
+                    P3 = [fo[i] + qs[qi][0] * fu[i] + qs[qi][1] * fw[i] for i in range(3)]
+                    pre = [P3[2], P3[0], P3[1]]  # pre-image of P under the permutation
+                    want = [bool(truth[qi]), in_first(pre)]
+                    r2, f = call(site0 + ":two-planes:contains(point)", both.contains, Point(np.array([float(x) for x in P3] + [1.0])))
+                    if f:
+                        fails.append((f, c))
+                        break
+                    if np.asarray(r2).shape != (2,) or np.asarray(r2).tolist() != want:
+                        fails.append((mismatch(site0 + ":single-point-vs-polygons-in-two-planes", (np.asarray(r2).tolist(), want)), c))
+                        break
         else:
             r, f = call(site0 + ":contains(collection)", poly.contains, PointCollection(Qall))
             if f:
@@ -297,6 +330,8 @@ def run_poly(c):
         labels["reversed"] = 1
     if how:
         labels["derived-from-a-queried-object"] = 1
+    if kind == "collection" and emb is not None:
+        labels["single-point-vs-polygons-in-two-planes"] = 1
     nt = sum(1 for x in call_cls if x in ("vertex", "edge", "edge-extension", "level-with-vertex"))
     return Batch(len(Qall), nt, fails, [], labels)
 
@@ -367,6 +402,6 @@ LAWS = [
         rule="Segment.contains on the whole parameter grid t = k/4 in [-1.5, 2.5], off-line points, rays"),
     Law("polygon_contains", None, None, drive=drive_factory(poly_case, run_poly, "polygon_contains"), budget={"quick": 500, "thorough": 10000}, shard=40,
         rule="Polygon/Triangle/Rectangle/PolygonCollection.contains on the full (half-)lattice grid of the enlarged bounding box; 2D and embedded in 3D; rotations/reversal of the vertex cycle",
-        mandatory=("vertex", "edge", "edge-extension", "level-with-vertex", "non-convex", "triangle", "reversed")),
+        mandatory=("vertex", "edge", "edge-extension", "level-with-vertex", "non-convex", "triangle", "reversed", "single-point-vs-polygons-in-two-planes")),
 ]
 REPLAY = {"segment_contains": replay_batch(run_seg), "polygon_contains": replay_batch(run_poly)}
